@@ -203,10 +203,18 @@ def run(ctx):
         if form == "rel":
             mag = "GAP" if amount != "lit" else num(abs(d), rng)
             tgt = ". %s %s" % ("+" if d >= 0 else "-", mag)
+            gap_def = "GAP = %s" % num(abs(d), rng)
+            if d < 0 and rng.random() < 0.5:
+                # a negative amount added: '. = . + PAD' with PAD below zero (a difference of two sizes)
+                if amount == "lit":
+                    tgt = ". + (0 - %s)" % num(abs(d), rng)
+                else:
+                    tgt = ". + GAP"
+                    gap_def = "GAP = %s - %s" % (num(8, rng), num(8 + abs(d), rng))
             if amount == "late":
-                bottom.append("GAP = %s" % num(abs(d), rng))
+                bottom.append(gap_def)
             elif amount == "early":
-                top.insert(0, "GAP = %s" % num(abs(d), rng))
+                top.insert(0, gap_def)
         else:
             tv = base + 6 + d
             if amount == "lit":
